@@ -50,7 +50,7 @@ fn eval_one(lines: &[L], c: &Cfg, acc: &mut Acc) {
                     let blocks: Vec<&Ev> = o.evs.iter().map(|e| &e.0).filter(|e| matches!(e, Ev::Sc(_, st, _, _) if *st == want_style)).collect();
                     let others = o.evs.iter().filter(|e| matches!(&e.0, Ev::Sc(_, st, _, _) if *st != want_style)).count();
                     let want_others = match c.ctx {
-                        0 | 1 => 0,
+                        0 | 1 | 9 => 0,
                         2 | 3 => usize::from(c.ctx == 2) + if r.has_sibling { if c.ctx == 2 { 2 } else { 1 } } else { 0 },
                         4 => 1 + if r.has_sibling { 2 } else { 0 },
                         _ => 1 + if r.has_sibling { 1 } else { 0 },
@@ -107,7 +107,7 @@ fn eval_one(lines: &[L], c: &Cfg, acc: &mut Acc) {
 
 fn configs(wide: bool) -> Vec<Cfg> {
     let mut v = vec![];
-    let ctxs: Vec<u8> = if wide { vec![6, 7, 8] } else { (0..6).collect() };
+    let ctxs: Vec<u8> = if wide { vec![6, 7, 8] } else { vec![0, 1, 2, 3, 4, 5, 9] };
     for folded in [false, true] {
         for chomp in 0..3u8 {
             for ind in 0..3u8 {
@@ -154,9 +154,9 @@ pub fn replay(case: &Value) -> Result<Acc, String> {
 
 pub fn check(tier: Tier) -> i32 {
     let mut rep = Report::new("C05", tier, "model_checking");
-    rep.rule = "abstract values: every list of at most l lines over the menu {a, 'b c', ' x' (more indented), tab-led, empty, empty-with-spaces, a line of n+1 spaces, '- z', 'k: v', '# n'}; configurations: {literal, folded} x {strip, clip, keep} x {auto, explicit 1, explicit 2 (both indicator orders)} x 6 parent contexts (+3 wide-indentation contexts and long lines in the thorough tier) x header comment x 5 end-of-input shapes; each is rendered to text, parsed by the real parser (3 input back-ends) and the block scalar's value and the surrounding structure are compared with the §8.1 reference semantics. Non-trivial: every rendered case; distinct: distinct (line kinds, configuration, denoted text).".into();
+    rep.rule = "abstract values: every list of at most l lines over the menu {a, 'b c', ' x' (more indented), tab-led, empty, empty-with-spaces, a line of n+1 spaces, '- z', 'k: v', '# n'}; configurations: {literal, folded} x {strip, clip, keep} x {auto, explicit 1, explicit 2 (both indicator orders)} x 7 parent contexts incl. a document root whose content sits at column 0 (+3 wide-indentation contexts and long lines in the thorough tier) x header comment x 5 end-of-input shapes; each is rendered to text, parsed by the real parser (3 input back-ends) and the block scalar's value and the surrounding structure are compared with the §8.1 reference semantics. Non-trivial: every rendered case; distinct: distinct (line kinds, configuration, denoted text).".into();
     rep.assumptions = vec![
-        "declined zones (not generated, see DESIGN §4 C05): explicit indentation indicator at document level; keep + a final spaces-only line without a line break; auto-detected indentation whose first non-empty line starts with a space".into(),
+        "declined zones (not generated, see DESIGN §4 C05): explicit indentation indicator at document level; keep + a final spaces-only line without a line break; auto-detected indentation whose first non-empty line starts with a space (or, for a document root with content at column 0, with a tab)".into(),
     ];
     let budget = Budget::new(wall_cap(tier));
     rep.mandatory_scopes = 1;
